@@ -1,5 +1,97 @@
+(* C01 -- AVL tree stays a balanced, correctly linked search tree under any history.
+   Model: C01/AvlDefs.v (run / step / ins / rem / search / heap_of).  Vocabulary: C01/AvlProofs.v
+   (sorted, Bst, Balanced, linsert, ldelete), C01/AvlHistory.v (amap, a_step, a_run, reachable, ids,
+   fresh_ids), C01/AvlHeap.v (Repr).  Non-vacuity Examples: C01/AvlExamples.v.
+   Every theorem quantifies over ALL finite histories from the empty tree. *)
 From Coq Require Import ZArith List.
-From LibaV Require Import C01.AvlDefs C01.AvlProofs.
-Theorem c01_search_empty : forall k, search k E = None.
-Proof. exact search_empty. Qed.
-Print Assumptions c01_search_empty.
+From LibaV Require Import C01.AvlDefs C01.AvlProofs C01.AvlHistory C01.AvlHeap C01.AvlExamples.
+Import ListNotations.
+Local Open Scope Z_scope.
+
+(* After every insert / remove / search, in any interleaving: no model error (no null dereference, no
+   factor leaving -1..1), the tree is a search tree, and at every node the stored factor equals
+   height(right) - height(left) and lies in -1..1. *)
+Theorem c01_avl_inv_reachable : forall ops : list op,
+  exists t obs, run ops E = Some (t, obs) /\ Bst t /\ Balanced t.
+Proof. exact avl_inv_reachable_proof. Qed.
+Print Assumptions c01_avl_inv_reachable.
+
+(* The container holds exactly the elements inserted and not yet removed: the run refines the abstract
+   map key -> id (a_step: insert of a resident key changes nothing and returns the resident; insert of
+   an absent key adds it and returns NULL; remove deletes the key and returns its node; search returns
+   the resident), every returned pointer included; the in-order list is strictly sorted; membership and
+   search agree with the abstract map. *)
+Theorem c01_avl_refines_set : forall ops : list op,
+  exists t obs,
+    run ops E = Some (t, obs) /\
+    obs = snd (a_run ops aempty) /\
+    sorted (elements t) /\
+    (forall k i, In (k, i) (elements t) <-> fst (a_run ops aempty) k = Some i) /\
+    (forall k, search k t = fst (a_run ops aempty) k).
+Proof. exact avl_refines_set_proof. Qed.
+Print Assumptions c01_avl_refines_set.
+
+(* Inserting an element whose key is present changes NOTHING (the tree is equal to the old one) and
+   returns the resident; inserting an absent key returns NULL and adds exactly that element. *)
+Theorem c01_avl_insert_cases : forall t k id, reachable t ->
+  match search k t with
+  | Some d => step t (Ins k id) = Some (t, Some d, [TDup])
+  | None => exists t' tr, step t (Ins k id) = Some (t', None, tr) /\
+                          elements t' = linsert k id (elements t) /\
+                          (forall x, In x (elements t') <-> x = (k, id) \/ In x (elements t))
+  end.
+Proof. exact avl_insert_cases_proof. Qed.
+Print Assumptions c01_avl_insert_cases.
+
+(* Remove deletes exactly the key's element and returns its node; removing an absent key changes nothing. *)
+Theorem c01_avl_remove_cases : forall t k, reachable t ->
+  match search k t with
+  | Some d => exists t' tr, step t (Rem k) = Some (t', Some d, tr) /\
+                            elements t' = ldelete k (elements t) /\
+                            (forall x, In x (elements t') <-> In x (elements t) /\ fst x <> k)
+  | None => step t (Rem k) = Some (t, None, [TAbsent])
+  end.
+Proof. exact avl_remove_cases_proof. Qed.
+Print Assumptions c01_avl_remove_cases.
+
+(* Lookup finds an element exactly when it is present. *)
+Theorem c01_avl_search_iff : forall t k i, reachable t ->
+  (search k t = Some i <-> In (k, i) (elements t)).
+Proof. exact avl_search_iff_proof. Qed.
+Print Assumptions c01_avl_search_iff.
+
+(* The canonical pointer structure of any tree with distinct node ids: it represents the tree, every
+   child's parent field points back to its parent, exactly the root has a null parent field, every other
+   node is the left or right child of the node its parent field names, and it holds exactly the tree's nodes. *)
+Theorem c01_heap_of_parent_links : forall t, NoDup (ids t) ->
+  let h := heap_of None t in
+  Repr h None t /\
+  (forall i c, lookup h i = Some c ->
+     (forall j, c_left c = Some j -> exists c', lookup h j = Some c' /\ c_parent c' = Some i) /\
+     (forall j, c_right c = Some j -> exists c', lookup h j = Some c' /\ c_parent c' = Some i) /\
+     (c_parent c = None <-> root_id t = Some i) /\
+     (forall q, c_parent c = Some q ->
+        exists cq, lookup h q = Some cq /\ (c_left cq = Some i \/ c_right cq = Some i))) /\
+  (forall i, In i (ids t) <-> exists c, lookup h i = Some c).
+Proof. exact heap_of_parent_links_proof. Qed.
+Print Assumptions c01_heap_of_parent_links.
+
+(* ... and this holds after every history whose inserted node objects are not already in use. *)
+Theorem c01_heap_links_reachable : forall ops t obs,
+  fresh_ids ops [] -> run ops E = Some (t, obs) ->
+  let h := heap_of None t in
+  Repr h None t /\
+  (forall i c, lookup h i = Some c ->
+     (forall j, c_left c = Some j -> exists c', lookup h j = Some c' /\ c_parent c' = Some i) /\
+     (forall j, c_right c = Some j -> exists c', lookup h j = Some c' /\ c_parent c' = Some i) /\
+     (c_parent c = None <-> root_id t = Some i) /\
+     (forall q, c_parent c = Some q ->
+        exists cq, lookup h q = Some cq /\ (c_left cq = Some i \/ c_right cq = Some i))) /\
+  (forall i, In i (ids t) <-> exists c, lookup h i = Some c).
+Proof. exact heap_links_reachable_proof. Qed.
+Print Assumptions c01_heap_links_reachable.
+
+(* Balanced is the real AVL condition: logarithmic height. *)
+Theorem c01_avl_height_log : forall t, Balanced t -> height t <= 2 * Z.log2 (size t + 1) + 1.
+Proof. exact avl_height_log_proof. Qed.
+Print Assumptions c01_avl_height_log.
